@@ -22,7 +22,7 @@ LEVEL_TEXT = ('All configurations below the qubit bound are built with the real 
 LEVEL_NOTE = ('Trusted: mc/gf2.py (self-tested), the size-family table of DESIGN §3. Not covered: sizes above the '
               'qubit bound / per-axis length bound stated in the evidence.')
 RULE = ('every (class, size, deformation) with size in the DESIGN §3 family, n <= bound and L <= l_max (at '
-        'least the 3 smallest family sizes per class), plus the thin lattices (one or two sides of length 1) of '
+        'least the 3 smallest family sizes per class), plus Color666PlanarCode with L_y != L_x and the thin lattices (one or two sides of length 1) of '
         'the five open-boundary classes that accept them; each configuration is distinct by construction and '
         'non-trivial (n >= 1 qubits, at least one generator); every deformed configuration additionally as a '
         '"used object" (all derived data read, deformed by another offered name, read again, then deformed); one '
@@ -39,6 +39,7 @@ def cases(tier, seed):
     out += F.configs(b['max_n'], F.CLASSES_3D, l_max=b['l_max_3d'], used=True)
     # thin lattices (a side of length 1) of the open-boundary classes: accepted by the constructors
     out += F.thin_configs(b['max_n'], l_max=b['l_thin'], deformed=True)
+    out += F.ignored_parameter_configs(b['max_n'], l_max=b['l_thin'], deformed=True)   # Color666Planar, L_y != L_x
     # sessions: objects of several sizes / deformations of one class built in ONE process
     sess = [{'part': 'session', 'cfgs': seq} for seq in session.interleave_by_size(out)]
     sess += [{'part': 'session', 'cfgs': seq} for seq in session.across_classes(out)]
